@@ -182,7 +182,7 @@ def run(shard, rec):
                 holder['lifted'] = secfld.subfield is not None
             return True
         w0 = sim.World(m, t, no_prss, seed=sseed, policy='eager', clear_caches=True)
-        w0.run(probe, cpu_seconds=20)
+        w0.run(probe, cpu_seconds=60)
         if w0.ok_results() is None:
             return 'unsupported', w0
         return holder, w0
@@ -272,7 +272,7 @@ def run(shard, rec):
             case = [cfgname, str(fdesc), si, policy, sseed] if shard['kind'] != 'exh' else [cfgname, str(fdesc), si]
             if not rec.wants(case):
                 continue
-            w = sim.World(m, t, no_prss, seed=sseed, policy=policy, clear_caches=False).run(make_program(fdesc, spec), cpu_seconds=20)
+            w = sim.World(m, t, no_prss, seed=sseed, policy=policy, clear_caches=False).run(make_program(fdesc, spec), cpu_seconds=20 if q < 2 ** 64 else 900)      # measured: < 0.5 s / 31 s CPU on the unchanged tree (256-bit field, m = 7)
             rec.count('programs_run')
             if holder['lifted']:
                 rec.count('lifted_programs_run')
